@@ -21,6 +21,7 @@ use super::RcSecurityTetraplets;
 use super::Resolvable;
 use crate::execution_step::execution_context::ExecutionCtx;
 use crate::execution_step::lambda_applier::select_by_lambda_from_scalar;
+use crate::execution_step::value_types::populate_tetraplet_with_lambda;
 use crate::execution_step::value_types::JValuable;
 use crate::execution_step::ExecutionResult;
 use crate::JValue;
@@ -84,14 +85,22 @@ fn resolve_errors(
         None => error.clone(),
     };
 
-    let tetraplets = match tetraplet {
-        Some(tetraplet) => vec![tetraplet.clone()],
+    let tetraplet = match tetraplet {
+        Some(tetraplet) => tetraplet.clone(),
         None => {
             let tetraplet = SecurityTetraplet::literal_tetraplet(ctx.run_parameters.init_peer_id.as_ref());
-            let tetraplet = Rc::new(tetraplet);
-            vec![tetraplet]
+            Rc::new(tetraplet)
         }
     };
+    // a lens applied to the error object is recorded in the tetraplet like on any other scalar
+    let tetraplet = match lens {
+        Some(error_accessor) => Rc::new(populate_tetraplet_with_lambda(
+            tetraplet.as_ref().clone(),
+            error_accessor,
+        )),
+        None => tetraplet,
+    };
+    let tetraplets = vec![tetraplet];
 
     Ok((jvalue, tetraplets, provenance.clone()))
 }
